@@ -43,6 +43,7 @@ type Profile struct {
 	BigMaps    bool // bind maps with 2..12 entries (C02)
 	Ticks      bool // conditions may pass through the counting filter `tick`
 	NumPrint   bool // numeric variables only where C18 names them: print, comparison, case/when, arithmetic (not as index, limit, offset or range endpoint)
+	PlainPunct bool // no [ ] < > in tags and objects (C19: those characters may be delimiters)
 	TypedNames bool // assignments use one variable name per kind (C18: role-typed programs)
 	OrdMap     bool // use the ordered-map binding ms (lookup and size) and the byte-slice binding bs (print)
 	PlainText  string
@@ -541,10 +542,10 @@ func (g *genv) exprD(k gkind, depth int, plain bool) *E {
 	switch k {
 	case gInt:
 		opts = append(opts,
-			func() *E { return Idx(g.exprD(gArrInt, depth-1, true), g.indexArg()) },
+			func() *E { return g.idx(g.exprD(gArrInt, depth-1, true), g.indexArg()) },
 			func() *E {
 				key := []string{"a", "b", "c", "size"}[g.pick("mk", 4)]
-				if g.pick("br", 3) == 0 {
+				if !g.p.PlainPunct && g.pick("br", 3) == 0 {
 					return PropBr(Var("m"), key)
 				}
 				return Prop(Var("m"), key)
@@ -579,8 +580,8 @@ func (g *genv) exprD(k gkind, depth int, plain bool) *E {
 		}
 	case gStr:
 		opts = append(opts,
-			func() *E { return Idx(g.exprD(gArrStr, depth-1, true), g.indexArg()) },
-			func() *E { return Prop(Idx(Var("r"), g.indexArg()), "v") },
+			func() *E { return g.idx(g.exprD(gArrStr, depth-1, true), g.indexArg()) },
+			func() *E { return Prop(g.idx(Var("r"), g.indexArg()), "v") },
 		)
 		if !plain && g.p.Filters {
 			opts = append(opts,
@@ -639,6 +640,14 @@ func (g *genv) exprD(k gkind, depth int, plain bool) *E {
 	return opts[g.pick("eopt", len(opts))]()
 }
 
+// idx builds x[i] unless brackets are off limits, in which case x.first stands in.
+func (g *genv) idx(x, i *E) *E {
+	if g.p.PlainPunct {
+		return Prop(x, "first")
+	}
+	return Idx(x, i)
+}
+
 func (g *genv) indexArg() *E {
 	ix := g.pick("ix", 6)
 	if g.p.NumPrint && ix == 0 {
@@ -661,6 +670,9 @@ func (g *genv) cond(depth int) *E {
 		func() *E {
 			k := []gkind{gInt, gInt, gStr, gFloat}[g.pick("ck", 4)]
 			ops := []string{"==", "!=", "<", ">", "<=", ">="}
+			if g.p.PlainPunct {
+				ops = ops[:2]
+			}
 			return Cmp(ops[g.pick("op", len(ops))], g.plain(k), g.plain(k))
 		},
 		func() *E { // cross-kind equality
@@ -707,7 +719,11 @@ func (g *genv) cond(depth int) *E {
 		})
 		if g.p.Filters {
 			opts = append(opts, func() *E {
-				return Cmp([]string{"==", ">", "<"}[g.pick("fop", 3)], Paren(Flt(g.exprD(gArrInt, 0, true), "size")), g.plain(gInt))
+				fops := []string{"==", ">", "<"}
+				if g.p.PlainPunct {
+					fops = fops[:1]
+				}
+				return Cmp(fops[g.pick("fop", len(fops))], Paren(Flt(g.exprD(gArrInt, 0, true), "size")), g.plain(gInt))
 			})
 		}
 	}
